@@ -456,11 +456,13 @@ def write_then_read(chk, repo):
     for root in ("memory://product", "/data/ALOS2/scene"):
         for img in images:
             W = World(repo)
+            if root.startswith("/"):
+                W.links.add(root)  # a local product directory reached through a link (scratch area, mounted archive)
             try:
                 I, sc = W.interp()
                 m = W.mapper(root)
                 g = Obj("Group", OrderedDict(path=Const("HH"), tag=Const(f"{root}:{img}")))
-                sit = f"product {root!r}, image {img!r}"
+                sit = f"product {root!r}" + (" (a local directory reached through a link)" if root in W.links else "") + f", image {img!r}"
                 k0, v0 = call(I, sc, "read_cache", [m, Const(img), Const(7)])
                 chk.require(k0 == "CachingError", "C07-N3", where, f"{sit}: with no cache anywhere read_cache raises CachingError",
                             f"{sit}: with no cache anywhere read_cache {k0} {str(v0)[:60]}", key="write-read:empty")
